@@ -149,7 +149,15 @@ type Job struct {
 	Params  map[string]int
 }
 
+type Witness struct {
+	idx    int
+	Job    Job
+	Vec    []ReplayVal
+	Covers []string
+}
+
 type JobResult struct {
+	Witnesses []Witness
 	Job      Job
 	Stats    *JobStats
 	Obls     []*Obligation
@@ -160,6 +168,7 @@ type JobResult struct {
 }
 
 type RunOpts struct {
+	WitnessPerJob int
 	MaxPaths  int
 	MaxInstr  int64
 	TimeoutMs int
@@ -177,7 +186,8 @@ func (w *World) runPath(job Job, sol *Solver, prefix []int, pending *[][]int, st
 	pkg := w.pkgs[job.Pkg]
 	fn := pkg.Func(job.Harness)
 	ex = &Exec{ts: NewTermStore(), sol: sol, prefix: prefix, pending: pending, stats: stats,
-		harness: job.Harness, cfg: job.Cfg, params: job.Params, maxInstr: opts.MaxInstr, curModel: map[string]uint64{}}
+		harness: job.Harness, cfg: job.Cfg, params: job.Params, maxInstr: opts.MaxInstr, curModel: map[string]uint64{},
+		wantWitness: opts.WitnessPerJob > 0}
 	if vector != nil {
 		ex.concrete = true
 		ex.vector = vector
@@ -228,10 +238,32 @@ func (w *World) runPath(job Job, sol *Solver, prefix []int, pending *[][]int, st
 		}
 	}
 	call(i, nil, 0, fn, nil)
+	// path completed normally: optionally extract a concrete witness of its path condition
+	if ex.wantWitness && !ex.concrete {
+		clean := true
+		for _, o := range ex.obls {
+			if o.Status != "discharged" {
+				clean = false
+			}
+		}
+		if clean && sol.Check() == "sat" {
+			vec := ex.model()
+			for _, v := range vec {
+				if strings.HasPrefix(v.Label, "err_") && v.Int != 0 {
+					clean = false
+				}
+			}
+			if clean {
+				ex.witness = vec
+			}
+		}
+	}
 	return ex
 }
 
 type jobState struct {
+	wstride int
+	wcount  int
 	mu  sync.Mutex
 	res *JobResult
 	t0  time.Time
@@ -345,6 +377,26 @@ func runJobs(w *World, jobs []Job, opts RunOpts) []*JobResult {
 				js.mu.Lock()
 				js.res.Stats.merge(st)
 				js.res.Obls = append(js.res.Obls, ex.obls...)
+				if ex.witness != nil && opts.WitnessPerJob > 0 {
+					// keep witnesses evenly spread over the job's paths
+					if js.wstride == 0 {
+						js.wstride = 1
+					}
+					js.wcount++
+					if js.wcount%js.wstride == 0 {
+						js.res.Witnesses = append(js.res.Witnesses, Witness{idx: js.wcount, Job: js.res.Job, Vec: ex.witness, Covers: ex.coverSeq})
+						if len(js.res.Witnesses) > opts.WitnessPerJob {
+							js.wstride *= 2
+							kept := js.res.Witnesses[:0]
+							for _, wt := range js.res.Witnesses {
+								if wt.idx%js.wstride == 0 {
+									kept = append(kept, wt)
+								}
+							}
+							js.res.Witnesses = kept
+						}
+					}
+				}
 				if len(js.res.Samples) < 2 && len(ex.pcs) > 0 {
 					js.res.Samples = append(js.res.Samples, pcString(ex.pcs))
 				}
